@@ -226,6 +226,11 @@ pub(in crate::layer) fn replace_layer_exec_d_programs<P: AsRef<Path>>(
     if !exec_d_programs.is_empty() {
         fs::create_dir_all(&exec_d_dir)?;
 
+        // Copy in name order: `exec_d_programs` is a `HashMap`, and if one of the programs cannot be
+        // copied, which of the others are already in place must not depend on its iteration order.
+        let mut exec_d_programs: Vec<(&String, &PathBuf)> = exec_d_programs.iter().collect();
+        exec_d_programs.sort();
+
         for (name, path) in exec_d_programs {
             // We could just try to copy the file here and let the call-site deal with the
             // I/O errors when the path does not exist. We're using an explicit error variant
